@@ -42,7 +42,8 @@ Definition cclose (eps : Q) (a b : C) : bool := Qle_bool (cnormsq (csub a b)) (e
 
 Fixpoint cpow (a : C) (n : nat) : C := match n with O => c1 | S k => cmul a (cpow a k) end.
 
-Fixpoint csum_list (l : list C) : C := match l with [] => c0 | x :: r => cadd x (csum_list r) end.
+(* sums keep their partial results in lowest terms (cred z = z as numbers) so that evaluation stays cheap *)
+Fixpoint csum_list (l : list C) : C := match l with [] => c0 | x :: r => cred (cadd x (csum_list r)) end.
 
 (* ------------------------------------------------------------------------------------------ *)
 (* RealInterval / IntegerRange (sampling.py:90-156)                                           *)
@@ -112,7 +113,7 @@ Definition rf_draw (expi : Q -> C) (cplx : bool) (raw : list (list (list rf_raw)
 (* sum over k of A*sin(B*x_k + C); terms and arguments are paired position-wise *)
 Fixpoint rf_inner (sinv : Q -> Q) (ts : list rf_term) (xs : list Q) : C :=
   match ts, xs with
-  | t :: ts', x :: xs' => cadd (cscale (sinv (t_b t * x + t_c t)) (t_a t)) (rf_inner sinv ts' xs')
+  | t :: ts', x :: xs' => cred (cadd (cscale (sinv (t_b t * x + t_c t)) (t_a t)) (rf_inner sinv ts' xs'))
   | _, _ => c0
   end.
 
